@@ -614,6 +614,8 @@ def pad_any_text(r, v):
             a = v["__any__"]
             if not a["children"] and a["text"] and r.random() < 0.35:
                 a["text"] = r.choice([" ", "  ", "\n "]) + a["text"] + r.choice([" ", "\t"])
+            elif not a["children"] and r.random() < 0.2:
+                a["text"] = r.choice([" ", "  ", "\n", "\t "])       # white space only: kept as it is
             for ch in a["children"]:
                 pad_any_text(r, ch)
         elif "fields" in v:
